@@ -60,12 +60,14 @@ pub fn validate_addresses(addresses: &Vec<String>, prefix: &str) -> StdResult<Ve
     for address in addresses {
         let validated_addr = validate_address(address, prefix)?;
 
-        if seen.contains(address) {
+        // bech32 is case-insensitive: the same address in lower and in upper case is a duplicate
+        let normalized = address.to_lowercase();
+        if seen.contains(&normalized) {
             return Err(StdError::generic_err("Duplicate address"));
         }
 
         validated.push(validated_addr);
-        seen.insert(address.clone());
+        seen.insert(normalized);
     }
 
     Ok(validated)
